@@ -58,8 +58,12 @@ def run (msgs : List (List String)) : Option String := do
   let w0 : World Nat := { conns := fun _ => Conn.init, store := fun _ => .none, app := 0 }
   let (w, outs) := evs.foldl (fun (acc : World Nat × List String) x =>
     let w1 := { acc.1 with store := x.1 }
-    let (w', o) := stepEv Hc.Generated.routes H w1 x.2
-    (w', acc.2 ++ [showResp w' (evConn x.2) o])) (w0, [])
+    -- accessory keys in a verify message are named relative to the connection's current one (Drv/Pair.lean)
+    let ev : Ev Unit := match x.2 with
+      | .req c (.verify m) => .req c (.verify (V.resolve c (w1.conns c).pv m))
+      | e => e
+    let (w', o) := stepEv Hc.Generated.routes H w1 ev
+    (w', acc.2 ++ [showResp w' (evConn ev) o])) (w0, [])
   pure (" ; ".intercalate outs ++ s!" | served={w.app}")
 
 def handle : List String → String
